@@ -381,6 +381,15 @@ func getNumType(param reflect.Value) int {
 	panic(fmt.Sprintf("it is not number type, type is %s !", ts))
 }
 
+//index of a slice or an array, given by a value of any signed or unsigned integer kind
+func GetIndex(v reflect.Value) int {
+	switch v.Kind() {
+	case reflect.Uint, reflect.Uint8, reflect.Uint16, reflect.Uint32, reflect.Uint64:
+		return int(v.Uint())
+	}
+	return int(v.Int())
+}
+
 func GetWantedValue(newValue reflect.Value, toKind reflect.Type) (reflect.Value, error) {
 	if newValue.Kind() == toKind.Kind() {
 		return newValue, nil
